@@ -128,16 +128,16 @@ def feederNodes (c : Ch) (rel : Nat) (prog : List Char) : List Node :=
   if closes then sendNodes ++ [Node.close c (sends + 1), Node.exit]
   else sendNodes ++ [Node.sel [.ctx rel (sends + 1)], Node.exit]
 
-/-- consumer of channel `c`: `all` reads until closed, `ctx` until closed or context 0 is done,
-    `n<k>` reads k values; `none` is no goroutine -/
-def consumerNodes (c : Ch) (mode : String) : Option (List Node) :=
-  if mode == "all" then some [Node.sel [.recv c 0 1], Node.exit]
-  else if mode == "ctx" then some [Node.sel [.recv c 0 1, .ctx 0 1], Node.exit]
-  else if mode.startsWith "n" then
-    match (mode.drop 1).toNat? with
-    | some k => some ((List.range k).map (fun i => Node.sel [.recv c (i + 1) k]) ++ [Node.exit])
-    | none => none
-  else none
+inductive ConsMode where
+  | all            -- reads until closed
+  | ctx            -- reads until closed or context 0 is done
+  | take (k : Nat) -- reads k values
+  deriving DecidableEq, Repr, Inhabited
+
+def consumerNodes (c : Ch) : ConsMode → List Node
+  | .all => [Node.sel [.recv c 0 1], Node.exit]
+  | .ctx => [Node.sel [.recv c 0 1, .ctx 0 1], Node.exit]
+  | .take k => (List.range k).map (fun i => Node.sel [.recv c (i + 1) k]) ++ [Node.exit]
 
 /-- controller: cancels the listed contexts one after the other, each at quiescence -/
 def controllerNodes (ctxs : List Nat) : List Node :=
@@ -168,14 +168,14 @@ def mkG (name : String) (nodes : List Node) (daemon : Bool := false) : Goroutine
 def Pipeline.chanByName (p : Pipeline) (name : String) (k : Nat := 0) : Option Ch :=
   ((p.chans.zipIdx.filter (fun x => x.1.name == name)).map (·.2))[k]?
 
-/-- goroutines of function `pre` (all its closures); `pre#k` selects the k-th goroutine called exactly `pre` -/
-def Pipeline.gsByPrefix (p : Pipeline) (pre : String) : List Gi :=
-  match pre.splitOn "#" with
-  | [n, k] =>
-    match ((p.gs.zipIdx.filter (fun x => x.1.name == n)).map (·.2))[k.toNat?.getD 0]? with
+/-- goroutines called exactly `name`; `inst = some k`: only the k-th of them -/
+def Pipeline.gsByName (p : Pipeline) (name : String) (inst : Option Nat) : List Gi :=
+  let all := (p.gs.zipIdx.filter (fun x => x.1.name == name)).map (·.2)
+  match inst with
+  | none => all
+  | some k => match all[k]? with
     | some g => [g]
     | none => []
-  | _ => (p.gs.zipIdx.filter (fun x => x.1.name == pre || x.1.name.startsWith (pre ++ "."))).map (·.2)
 
 /-- keep the goroutines in `keep` as they are; every other goroutine is replaced by a stub that
     is never started (indices stay valid), the harness goroutines are appended -/
@@ -184,5 +184,109 @@ def Pipeline.surgery (p : Pipeline) (keep : List Gi) (extra : List Goroutine) (n
     gs := (p.gs.zipIdx.map fun x => if keep.contains x.2 then x.1
             else { x.1 with nodes := [Node.exit], sites := [], conds := [], static := false }) ++ extra,
     nctx := nctx, rank := [] }
+
+/-! ### scenarios from a structured description (driver lines, witness theorems) -/
+
+/-- resolve a data-dependent decision: successors of branch nodes that stand for another outcome
+    of the decision `site` (matched by `m`) are removed -/
+def applyPick (m : String → String → Bool) (p : Pipeline) (keep : List Gi) (site : String) (i : Nat) : Pipeline :=
+  { p with gs := p.gs.zipIdx.map fun x =>
+      if !keep.contains x.2 then x.1 else
+      { x.1 with nodes := x.1.nodes.zipIdx.map fun nd =>
+          match nd.1 with
+          | .branch ns =>
+            let conds := match x.1.conds[nd.2]? with | some c => c | none => []
+            let kept := ns.zipIdx.filterMap fun s =>
+              let path := match conds[s.2]? with | some c => c | none => []
+              if path.all (fun d => !m d.1 site || d.2 == i) then some s.1 else none
+            if kept.isEmpty then nd.1 else .branch kept
+          | _ => nd.1 } }
+
+inductive CtlOp where
+  | feed (i : Nat) | go | cancel | release
+  deriving DecidableEq, Repr, Inhabited
+
+/-- a scenario line, parsed -/
+structure Spec where
+  keep : List (String × Option Nat)            -- goroutines under test (exact name, instance)
+  feed : List ((String × Nat) × List Char)     -- channel (name, instance), program over `s` / `c`
+  cons : List ((String × Nat) × ConsMode)
+  ctl : List CtlOp                             -- harness script
+  pick : List (String × Nat)                   -- decision text, branch
+  obs : List (String × Nat)                    -- observed channels
+  pre : Bool := false                          -- context already done at the start
+  deriving Repr, Inhabited
+
+/-- the scenario pipeline of a spec over a (regenerated) pipeline; `none`: unknown channel -/
+def Scenario.ofSpec (m : String → String → Bool) (p0 : Pipeline) (sp : Spec) : Option Scenario :=
+  let keep := sp.keep.flatMap fun k => p0.gsByName k.1 k.2
+  let p1 := sp.pick.foldl (fun p s => applyPick m p keep s.1 s.2) p0
+  let feeds := sp.feed.map fun s => (p1.chanByName s.1.1 s.1.2, s.2)
+  let conss := sp.cons.map fun s => (p1.chanByName s.1.1 s.1.2, s.2)
+  let obs := sp.obs.map fun s => p1.chanByName s.1 s.2
+  if feeds.any (·.1.isNone) || conss.any (·.1.isNone) || obs.any Option.isNone then none else
+  let rel := p1.nctx
+  let gate (i : Nat) := p1.nctx + 1 + i
+  let chOf (o : Option Ch) : Ch := match o with | some c => c | none => 0
+  let feeders := feeds.zipIdx.map fun x =>
+    -- gate, then the program (shifted by one node)
+    mkG "harness.feeder" (Node.sel [.ctx (gate x.2) 1] :: (feederNodes (chOf x.1.1) rel x.1.2).map (Node.shift 1))
+  let consumers := conss.map fun x => mkG "harness.consumer" (consumerNodes (chOf x.1) x.2)
+  let goGate := gate feeds.length
+  -- a context that is already done when the stage starts = cancel, then start, then the script
+  let ctlOps := if sp.pre then [CtlOp.cancel] ++ (if sp.ctl.contains .go then [] else [CtlOp.go]) ++ sp.ctl else sp.ctl
+  let gated := ctlOps.contains .go
+  let ctlCtxs := ctlOps.map fun op => match op with
+    | .cancel => 0 | .release => rel | .go => goGate | .feed i => gate i
+  let ctl := mkG "harness.controller" (controllerNodes ctlCtxs)
+  let extra := feeders ++ consumers ++ [ctl]
+  -- `go` in the script: the code under test is started by the controller
+  let gateG (x : Goroutine × Nat) : Goroutine :=
+    if keep.contains x.2 && !x.1.daemon && x.1.static then
+      { x.1 with nodes := Node.sel [.ctx goGate 1] :: x.1.nodes.map (Node.shift 1), sites := "start" :: x.1.sites,
+                 conds := [] :: x.1.conds }
+    else x.1
+  let p1 : Pipeline := if gated then { p1 with gs := p1.gs.zipIdx.map gateG } else p1
+  let p2 := p1.surgery keep extra (p1.nctx + 2 + feeds.length)
+  some { p := p2, controller := some (p2.gs.length - 1),
+         watched := keep.filter (fun g => match p2.gs[g]? with | some gr => !gr.daemon | none => false),
+         observed := obs.filterMap id }
+
+/-! ### a small verified breadth-first search (kernel-evaluable, for witness theorems) -/
+
+def Scenario.next (sc : Scenario) (s : State) : List State :=
+  (sc.steps s).filterMap fun x => match x.2 with
+    | .run t => some t
+    | .crash _ _ _ => none
+
+def Scenario.crashes (sc : Scenario) (s : State) : List CrashKind :=
+  (sc.steps s).filterMap fun x => match x.2 with
+    | .run _ => none
+    | .crash k _ _ => some k
+
+/-- a number identifying a state (control states, queue lengths, closed flags, counters, context
+    flags in positional notation); only used to recognise states already visited -/
+def State.key (s : State) : Nat :=
+  let a := s.gs.foldl (fun acc st => acc * 256 + (match st with | .idle => 0 | .done => 1 | .at pc => pc + 2)) 1
+  let b := s.chs.foldl (fun acc c => (acc * 64 + c.len) * 2 + (if c.closed then 1 else 0)) a
+  let c := s.wgs.foldl (fun acc w => acc * 64 + w) b
+  s.ctxs.foldl (fun acc d => acc * 2 + (if d then 1 else 0)) c
+
+def keepFresh : List State → List Nat → List State → List State × List Nat
+  | [], keys, acc => (acc, keys)
+  | t :: ts, keys, acc =>
+    if keys.contains t.key then keepFresh ts keys acc else keepFresh ts (t.key :: keys) (acc ++ [t])
+
+/-- states reachable by scenario steps from the frontier (fuel bounds the expansions); `keys`
+    are the keys of the states already found, `found` the states themselves -/
+def bfs (next : State → List State) : Nat → List State → List Nat → List State → List State
+  | 0, _, _, found => found
+  | _ + 1, [], _, found => found
+  | fuel + 1, s :: rest, keys, found =>
+    let r := keepFresh (next s) keys []
+    bfs next fuel (rest ++ r.1) r.2 (found ++ r.1)
+
+def Scenario.reachSet (sc : Scenario) (fuel : Nat) : List State :=
+  bfs sc.next fuel [init sc.p] [(init sc.p).key] [init sc.p]
 
 end Dos.Pipe
